@@ -248,6 +248,10 @@ struct Case {
     deprecated_setters: bool,
     /// script-credential items get a Plutus witness (else a native script)
     plutus_witness: bool,
+    /// the builder is fed with a history in which earlier state is replaced: every withdrawal is first entered with
+    /// another amount and then corrected (the same reward account again), every proposal is offered twice, and each
+    /// sub-builder is set on the transaction builder twice (a decoy first). The figures must describe the final state.
+    corrections: bool,
 }
 
 impl Case {
@@ -263,6 +267,7 @@ impl Case {
             set_empty: false,
             deprecated_setters: false,
             plutus_witness: false,
+            corrections: false,
         }
     }
     fn push_cert(&mut self, c: Certificate) -> bool {
@@ -542,6 +547,11 @@ fn feed_builder(ctx: &mut Ctx, case: &Case, lp: &str) -> Result<TransactionBuild
         }
         if !done {
             let mut cb = CertificatesBuilder::new();
+            if case.corrections {
+                let mut decoy = CertificatesBuilder::new();
+                let _ = catch(|| decoy.add(&Certificate::new_stake_registration(&StakeRegistration::new(&Credential::from_keyhash(&Ed25519KeyHash::from_bytes(vec![0x5b; 28]).unwrap())))));
+                tb.set_certs_builder(&decoy);
+            }
             for (i, it) in case.certs.iter().enumerate() {
                 let plain = catch(|| cb.add(&it.cert));
                 if let Ok(Ok(())) = plain {
@@ -582,6 +592,21 @@ fn feed_builder(ctx: &mut Ctx, case: &Case, lp: &str) -> Result<TransactionBuild
         }
         if !done {
             let mut wb = WithdrawalsBuilder::new();
+            if case.corrections {
+                ctx.label(&format!("{}:builder:corrected-history", lp));
+                // a decoy set first: setting the real sub-builder afterwards replaces it
+                let mut decoy = WithdrawalsBuilder::new();
+                let _ = catch(|| decoy.add(&RewardAddress::new(1, &Credential::from_keyhash(&Ed25519KeyHash::from_bytes(vec![0x5a; 28]).unwrap())), &bn(5_000_000)));
+                tb.set_withdrawals_builder(&decoy);
+                // every account first with another amount (whichever entry point takes it), then corrected below
+                for (i, (a, v)) in case.withdrawals.iter().enumerate() {
+                    let wrong = if *v % 2 == 0 { v / 2 + 3 } else { v.wrapping_mul(3) | 1 };
+                    if let Ok(Ok(())) = catch(|| wb.add(a, &bn(wrong))) {
+                        continue;
+                    }
+                    let _ = if case.plutus_witness { catch(|| wb.add_with_plutus_witness(a, &bn(wrong), &plutus_witness(100 + i as u64))) } else { catch(|| wb.add_with_native_script(a, &bn(wrong), &native_witness())) };
+                }
+            }
             for (i, (a, v)) in case.withdrawals.iter().enumerate() {
                 let plain = catch(|| wb.add(a, &bn(*v)));
                 if let Ok(Ok(())) = plain {
@@ -604,9 +629,20 @@ fn feed_builder(ctx: &mut Ctx, case: &Case, lp: &str) -> Result<TransactionBuild
     // proposals
     if !case.proposals.is_empty() || case.set_empty {
         let mut pb = VotingProposalBuilder::new();
+        if case.corrections {
+            if let Some((p, _)) = case.proposals.first() {
+                let mut decoy = VotingProposalBuilder::new();
+                let _ = catch(|| decoy.add(p));
+                tb.set_voting_proposal_builder(&decoy);
+            }
+        }
         for (i, (p, _)) in case.proposals.iter().enumerate() {
             let plain = catch(|| pb.add(p));
             if let Ok(Ok(())) = plain {
+                if case.corrections {
+                    // the same proposal once more: the builder is a map keyed by the proposal
+                    let _ = catch(|| pb.add(p));
+                }
                 continue;
             }
             match catch(|| pb.add_with_plutus_witness(p, &plutus_witness(200 + i as u64))) {
@@ -1163,6 +1199,7 @@ fn sequences(ctx: &mut Ctx, tape: &[u8]) -> CaseResult {
     case.set_empty = flags & 1 == 1;
     case.deprecated_setters = flags & 2 == 2;
     case.plutus_witness = flags & 4 == 4;
+    case.corrections = flags & 0x10 == 0x10;
     ctx.label(match regime_choice {
         0 | 4 => "seq:regime:moderate",
         1 => "seq:regime:width-classes",
